@@ -285,7 +285,7 @@ func (r *Raft) onSnapshotTaken(t snapTaken) {
 		// canCompact: min of online matchIndex
 		nowCompact, canCompact := t.meta.index, t.meta.index
 		if r.state == Leader {
-			for _, repl := range r.ldr.repls {
+			for _, repl := range r.ldr.logReaders() {
 				if repl.status.matchIndex < nowCompact {
 					nowCompact = repl.status.matchIndex
 				}
